@@ -3,6 +3,7 @@ A candidate is kept only if the *same clause* (and same known/unknown signature 
 still fails when the candidate trace is re-executed in a fresh forked child."""
 import copy
 import json
+import time
 
 from .runner import fork_call
 
@@ -22,12 +23,16 @@ def sigkey(v):
     return _sigkey(v)
 
 
-def minimise(replay_fn, check, trace, clause, sigkey=None, budget=600):
-    """replay_fn(check, trace) -> result dict (module-level function, runs in a fork)"""
+def minimise(replay_fn, check, trace, clause, sigkey=None, budget=600, wall_s=240):
+    """replay_fn(check, trace) -> result dict (module-level function, runs in a fork).
+    Bounded by a number of replays and, as a safety net for traces with 70000-element vectors, by
+    wall time: the bound only limits how far the trace is reduced, never what counts as failing."""
     calls = [0]
+    deadline = time.monotonic() + wall_s
 
     def fails(t):
-        if calls[0] >= budget:
+        if calls[0] >= budget or time.monotonic() > deadline:
+            calls[0] = max(calls[0], budget)
             return False
         calls[0] += 1
         st, res = fork_call(replay_fn, (check, t))
@@ -84,6 +89,10 @@ def _simpler(rec):
         del r["fault"]
         yield r
     if rec.get("op") == "vec" and len(rec.get("vals", [])) > 1:
+        if len(rec["vals"]) > 8:
+            r = copy.deepcopy(rec)
+            r["vals"] = r["vals"][:len(r["vals"]) // 2]
+            yield r
         r = copy.deepcopy(rec)
         r["vals"] = r["vals"][:-1]
         yield r
